@@ -28,6 +28,11 @@ THEOREMS = [
         "pair_within_radius", "pair_closer_than_radius", "table_score_iff", "unpaired_are_leftover",
         "fpval_all_paired", "fpval_drops_unpaired", "fpval_empty_gt", "empty_gt_all_unpaired", "empty_est",
         "results_length",
+        # the dispatch of get_object_results over object kind x label family x uuids x uuid_matching_first
+        # (lean/PEval/Model/MatchDispatch.lean): objects with geometry are served by the geometric matcher, so the
+        # statements above hold for every label family and uuid setting
+        "dispatch_geometric_iff", "dispatch_roiless", "withGeometry_eq_geometric", "geometric_independent_of_family_uuid",
+        "x_results_est_perm", "x_results_gt_nodup", "x_pair_within_radius", "x_fpval_all_paired",
     ]
 ] + (
     # decision tables of the kernels C01 rests on, regenerated from the source on every run (harness/dt_match.py)
@@ -44,7 +49,17 @@ RULE = (
     "cases numeric type variants: the same radii / positions / sizes / velocities / confidences / ROI pixels / time "
     "stamps / point counts / ego pose / manager configuration numbers handed to the real code as int, np.float64, "
     "np.float32 (only values exact in single precision), np.int64, np.int32, in tuples, lists or ndarrays, a uniform "
-    "radius as a scalar or one-element list in the manager configuration (model request and oracle unchanged); a case is "
+    "radius as a scalar or one-element list in the manager configuration (model request and oracle unchanged); "
+    "PATH-SELECTING FIELDS: a deterministic grid (grid_cases) of EVERY combination object kind {3-D box, 2-D with ROI, 2-D "
+    "without ROI} x label set {AutowareLabel, TrafficLightLabel colours, TrafficLightLabel.TRAFFIC_LIGHT} x uuids {distinct, "
+    "shared between the sides so that identity suggests another pairing than geometry, None} x every EvaluationTask admitting "
+    "the kind (detection/tracking/prediction/fp_validation, detection2d/tracking2d/classification2d/fp_validation2d) x "
+    "uuid_matching_first {absent, False, True} x matching mode x radii {none, tight} on three fixed scenes (labels, uuids and "
+    "geometry each suggest a different pairing, one estimate unpaired, one equal-label pair beyond the radius, two cameras), "
+    "the same through the manager (autoware and traffic_light label prefix); and in 45 % of the seeded cases the same fields "
+    "varied at random (re-labelling into TrafficLightLabel members on the traffic-light cameras, uuid schemes incl. partly "
+    "None, task, uuid_first, 8 % of the 2-D ones ROI-less); the Lean model (op matchx) gets kind / family / uuids / ROI "
+    "presence and dispatches itself; a case is "
     "non-trivial when both lists are non-empty (the two early returns are counted separately); distinct = distinct case JSON"
 )
 TRUSTED = [
@@ -62,9 +77,17 @@ ASSUMPTIONS = [
     "decision tables: Boolean and order atoms are treated as independent (over-approximation of the input space, sound for "
     "'table = model'); enum arguments (policy, matching mode) are enumerated over the members of the current source; "
     "an untranslatable source (histogram key table:untranslatable) leaves the correspondence as the only tie",
-    "objects carry geometry (3-D box or 2-D ROI); the ROI-less branches (_get_object_results_with_id/_for_tlr) belong to C11",
+    "C01's statement is asserted for objects that carry geometry (3-D box or 2-D ROI), for BOTH label families and any uuids; "
+    "ROI-less 2-D objects (no geometry; _get_object_results_with_id/_for_tlr are C11's subject) are run through the same entry "
+    "point with unique non-null uuids, compared with the model's identity-based matchers, and the oracle asserts only what "
+    "holds for every matcher (nothing foreign, one-to-one, same frame, lists untouched, the two early returns), NOT 'every "
+    "estimate in a result' (the traffic-light matcher documents that it drops them); lists mixing objects with and without "
+    "ROI are not generated",
+    "all labels of one call (objects, target labels) belong to one label family; 3-D objects with TrafficLightLabel only in the "
+    "direct call; manager slice with label_prefix traffic_light uses the labels its converter produces for a non-classification "
+    "task (traffic_light / unknown / false_positive)",
     "estimates and ground truths are of the same Python type (the isinstance assertion is not exercised)",
-    "labels are AutowareLabel members; 3-D frames are base_link/map with a base_link->map transform supplied",
+    "3-D frames are base_link/map with a base_link->map transform supplied",
     "the oracle's independent IoU / plane-distance recomputation uses floats: a pair closer than 1e-7 to its threshold is not judged",
     "numeric type variants keep the mathematical value (bool is not a numeric type; np.float32 only for values exact in single "
     "precision); with float32-held geometry or radii a pair closer than 1e-4 (relative) to its threshold is not judged, and a case "
@@ -292,7 +315,7 @@ def gen_num(rng, case: dict, p: float = 0.6) -> dict:
                 if rng.random() < p / 2:
                     t["pcn"] = rng.choice(INT_TAGS)
             else:
-                if rng.random() < p:
+                if o.get("roi") is not None and rng.random() < p:
                     t["roi"] = vec_pick(rng, o["roi"], INT_TAGS, ("tuple", "tuple", "list"))
             if "conf" in o and rng.random() < p:
                 t["conf"] = num_pick(rng, o["conf"])
@@ -309,9 +332,45 @@ def gen_num(rng, case: dict, p: float = 0.6) -> dict:
 
 # ----------------------------------------------------------------------------- building real objects
 
-def _label(name: str):
+# ----------------------------------------------------------------------------- object kind x label family x optional fields
+#
+# `get_object_results` is ONE entry point for 3-D boxes, 2-D objects with a ROI and ROI-less 2-D objects, for both label
+# families (AutowareLabel / TrafficLightLabel), with uuids set or None and for every evaluation task that admits the
+# kind; which matcher serves a call is decided from these fields.  Optional case fields (absent = the former default):
+#   "family": "autoware" | "traffic_light"      label family of ALL labels of the case (objects and target labels)
+#   object["uuid"]: str | None                  (absent: harness default, distinct on both sides)
+#   object["roi"]: None                         ROI-less 2-D object (no geometry: outside C01's statement, see oracle)
+#   "task": value of an EvaluationTask member   (absent: detection(2d) / fp_validation(2d) from "task_fp")
+#   "uuid_first": bool                          the `uuid_matching_first` argument / configuration entry
+
+TL_OF = {"car": "green", "bicycle": "red", "pedestrian": "yellow", "motorbike": "red_left", "truck": "green_straight",
+         "bus": "traffic_light", "unknown": "unknown", "false_positive": "false_positive"}
+TL_FRAMES = {"cam_front": "cam_traffic_light_near", "cam_back": "cam_traffic_light_far"}
+TASKS = {("3d", False): ["detection", "tracking", "prediction"], ("3d", True): ["fp_validation"],
+         ("2d", False): ["detection2d", "tracking2d", "classification2d"], ("2d", True): ["fp_validation2d"]}
+
+
+def _family(case: dict) -> str:
+    return case.get("family", "autoware")
+
+
+def is_roiless(case: dict) -> bool:
+    return case["dim"] == "2d" and any(o.get("roi") is None for o in case["ests"] + case["gts"])
+
+
+def _label_enum(case_or_family):
     M = _m()
-    lab = M["AutowareLabel"](name)
+    fam = case_or_family if isinstance(case_or_family, str) else _family(case_or_family)
+    if fam == "traffic_light":
+        from perception_eval.common.label import TrafficLightLabel
+
+        return TrafficLightLabel
+    return M["AutowareLabel"]
+
+
+def _label(name: str, family: str = "autoware"):
+    M = _m()
+    lab = _label_enum(family)(name)
     return M["Label"](lab, name, [])
 
 
@@ -320,7 +379,7 @@ def build_objects(case: dict, which: str) -> list:
     out = []
     specs = _num(case).get(which) or []
     for k, o in enumerate(case[which]):
-        uuid = f"{which[0]}{k}"
+        uuid = o["uuid"] if "uuid" in o else f"{which[0]}{k}"
         t = (specs[k] if k < len(specs) else None) or {}
         conf = num_cast(o.get("conf", 0.9), t.get("conf"))
         stamp = num_cast(100, t.get("t"))
@@ -331,13 +390,13 @@ def build_objects(case: dict, which: str) -> list:
                     stamp, M["FrameID"](o["frame"]), vec_cast(o["pos"], t.get("pos")), q,
                     M["Shape"](M["ShapeType"].BOUNDING_BOX, vec_cast(o["size"], t.get("size"))),
                     vec_cast([0.0, 0.0, 0.0], t.get("vel")),
-                    conf, _label(o["label"]), pointcloud_num=num_cast(10, t.get("pcn")), uuid=uuid,
+                    conf, _label(o["label"], _family(case)), pointcloud_num=num_cast(10, t.get("pcn")), uuid=uuid,
                 )
             )
         else:
             out.append(
-                M["DynamicObject2D"](stamp, M["FrameID"](o["frame"]), conf, _label(o["label"]),
-                                     roi=vec_cast(o["roi"], t.get("roi")), uuid=uuid)
+                M["DynamicObject2D"](stamp, M["FrameID"](o["frame"]), conf, _label(o["label"], _family(case)),
+                                     roi=None if o.get("roi") is None else vec_cast(o["roi"], t.get("roi")), uuid=uuid)
             )
     return out
 
@@ -359,6 +418,8 @@ def build_transforms(case: dict):
 def _task(case: dict):
     M = _m()
     T = M["EvaluationTask"]
+    if case.get("task"):
+        return T(case["task"])
     if case["dim"] == "3d":
         return T.FP_VALIDATION if case["task_fp"] else T.DETECTION
     return T.FP_VALIDATION2D if case["task_fp"] else T.DETECTION2D
@@ -366,14 +427,14 @@ def _task(case: dict):
 
 def _targets(case: dict):
     M = _m()
-    return None if case["targets"] is None else [M["AutowareLabel"](t) for t in case["targets"]]
+    return None if case["targets"] is None else [_label_enum(case)(t) for t in case["targets"]]
 
 
 def _snapshot(objs: list) -> list:
     snap = []
     for o in objs:
         geo = tuple(o.state.position) + tuple(o.state.size) + tuple(o.state.orientation.q) if hasattr(o.state, "size") and o.state.size is not None else (
-            tuple(o.roi.offset) + tuple(o.roi.size)
+            () if o.roi is None else tuple(o.roi.offset) + tuple(o.roi.size)
         )
         snap.append((id(o), o.semantic_label.label.value, str(o.frame_id.value), tuple(float(v) for v in geo), o.uuid))
     return snap
@@ -390,7 +451,7 @@ def _manager(case: dict):
     nv = _num(case)
     ctag = nv.get("cfg")
     key = json.dumps([case["dim"], case["task_fp"], case["targets"], case["radii"], case["policy"], case.get("mframe", "base_link"),
-                      nv.get("radii"), nv.get("radii_form"), ctag])
+                      nv.get("radii"), nv.get("radii_form"), ctag, _family(case), case.get("uuid_first"), case.get("task")])
     if key in _MANAGERS:
         m = _MANAGERS[key]
         m.frame_results.clear()
@@ -412,13 +473,15 @@ def _manager(case: dict):
         frame = case.get("mframe", "base_link")
     else:
         d = {
-            "evaluation_task": "fp_validation2d" if case["task_fp"] else "detection2d",
+            "evaluation_task": case.get("task") or ("fp_validation2d" if case["task_fp"] else "detection2d"),
             "target_labels": list(case["targets"]),
-            "label_prefix": "autoware", "merge_similar_labels": False,
+            "label_prefix": _family(case), "merge_similar_labels": False,
             "matching_label_policy": case["policy"],
             "center_distance_thresholds": [[num_cast(100.0, ctag)] * n], "iou_2d_thresholds": [num_cast(0.5, ctag)],
         }
-        frame = ["cam_front", "cam_back"]
+        frame = ["cam_front", "cam_back"] if _family(case) == "autoware" else ["cam_traffic_light_near", "cam_traffic_light_far"]
+    if "uuid_first" in case:
+        d["uuid_matching_first"] = bool(case["uuid_first"])
     if case["radii"] is not None:
         tr = list(typed_radii(case))
         form = nv.get("radii_form", "list")
@@ -514,6 +577,7 @@ def run_impl(case: dict) -> dict:
                 evaluation_task=_task(case), estimated_objects=ests, ground_truth_objects=gts,
                 target_labels=_targets(case), matching_label_policy=M["MatchingLabelPolicy"](case["policy"]),
                 matching_mode=_mode, matchable_thresholds=typed_radii(case), transforms=transforms,
+                **({"uuid_matching_first": bool(case["uuid_first"])} if "uuid_first" in case else {}),
             )
         rl = []
         for r in res:
@@ -529,6 +593,10 @@ def run_impl(case: dict) -> dict:
     out["untouched"] = _snapshot(ests) == snap_e and _snapshot(gts) == snap_g
     out["in_e"] = [ids_e[id(o)] for o in in_e]
     out["in_g"] = [ids_g[id(o)] for o in in_g]
+    if is_roiless(case):
+        # no geometry, no matching score: the model's identity-based matchers (C11's) do not read `vals`
+        out["vals"] = [["0"] * len(in_g) for _ in in_e]
+        return out
     try:
         out["vals"], out["facts"] = _table_facts(case, in_e, in_g, transforms)
     except Exception as ex:  # the real matching classes failed on this geometry: no model request possible
@@ -543,9 +611,19 @@ def model_requests(case: dict, out: dict) -> list:
         return []
     E = [case["ests"][k] for k in out["in_e"]]
     G = [case["gts"][k] for k in out["in_g"]]
+    def uuid_of(o, which, k):
+        return o["uuid"] if "uuid" in o else f"{which}{k}"
+
+    tl = _family(case) == "traffic_light"
     return [{
-        "op": "match",
-        "want_table": len(E) * len(G) <= 100,
+        "op": "matchx",
+        "is2d": case["dim"] == "2d", "uuid_first": bool(case.get("uuid_first", False)),
+        "est_tl": [tl] * len(E), "gt_tl": [tl] * len(G),
+        "est_uuid": [uuid_of(case["ests"][k], "e", k) for k in out["in_e"]],
+        "gt_uuid": [uuid_of(case["gts"][k], "g", k) for k in out["in_g"]],
+        "est_roi_none": [case["dim"] == "2d" and o.get("roi") is None for o in E],
+        "gt_roi_none": [case["dim"] == "2d" and o.get("roi") is None for o in G],
+        "want_table": len(E) * len(G) <= 100 and "facts" in out,
         "policy": case["policy"],
         "mode": case["mode"],
         "targets": case["targets"],
@@ -589,9 +667,12 @@ def compare(case: dict, out: dict, resps: list) -> Optional[str]:
         return "skip"
     mres = _to_ids(out, r["results"])
     if mres != out["results"]:
-        return f"result lists differ: impl {out['results']} model {mres}"
+        return f"result lists differ (model path: {r.get('path')}): impl {out['results']} model {mres}"
+    want_path = expected_path(case, out)
+    if r.get("path") != want_path:
+        return f"dispatch differs: the model takes the {r.get('path')} path, the documented matcher for this kind of object is {want_path}"
     tbl = r.get("table")
-    if tbl is not None:
+    if tbl is not None and "facts" in out:
         for i, row in enumerate(out["facts"]):
             for j, (same, within, label_ok) in enumerate(row):
                 present = bool(same) and (within is None or within is True)
@@ -721,12 +802,28 @@ def label_threshold(case: dict, g: dict):
     return case["radii"][k]
 
 
+def expected_path(case: dict, out: dict) -> str:
+    """which matcher the documentation assigns to the call ("For classification, matching objects their uuid. Otherwise,
+    matching them depending on their center distance by default"): objects with geometry -> geometric, whatever the label
+    family, the uuids and uuid_matching_first are; ROI-less 2-D objects -> the identity-based matchers (C11)"""
+    E = [case["ests"][k] for k in out["in_e"]]
+    G = [case["gts"][k] for k in out["in_g"]]
+    if not E or not G:
+        return "early"
+    if case["dim"] == "2d" and (E[0].get("roi") is None or G[0].get("roi") is None):
+        return "tlr" if _family(case) == "traffic_light" else "id"
+    return "geometric"
+
+
 def expected_error(case: dict, out: dict) -> Optional[str]:
     """the documented rejections reachable through this interface (both early returns come first)"""
     E = [case["ests"][k] for k in out["in_e"]]
     G = [case["gts"][k] for k in out["in_g"]]
     if not E or not G:
         return None
+    if is_roiless(case):
+        # identity-based matchers: "uuid of estimation and ground truth must be set"
+        return "RuntimeError" if any(("uuid" in o and o["uuid"] is None) for o in E + G) else None
     iou = case["mode"] in ("iou2d", "iou3d")
     for e in E:
         for g in G:
@@ -757,6 +854,11 @@ def oracle(case: dict, out: dict) -> Optional[str]:
     res = out["results"]
     E, G = out["in_e"], out["in_g"]
     ests, gts = case["ests"], case["gts"]
+    # ROI-less 2-D objects carry no geometry: C01 speaks about objects WITH geometry, the identity-based matchers are C11's
+    # subject (they do drop unpaired traffic-light estimates). Only what holds for every matcher is looked at: nothing
+    # foreign, one-to-one, same frame, lists untouched.
+    roiless = is_roiless(case)
+    STATS["oracle_cases:" + ("roi-less(matcher-independent part only)" if roiless else "geometry")] += 1
     es = [r[0] for r in res]
     gs = [r[1] for r in res if r[1] is not None]
     # nothing foreign
@@ -773,6 +875,8 @@ def oracle(case: dict, out: dict) -> Optional[str]:
         eo, go = ests[e], gts[g]
         if eo["frame"] != go["frame"]:
             return f"estimate {e} ({eo['frame']}) paired with ground truth {g} ({go['frame']}): different frames"
+        if roiless:
+            continue
         t = label_threshold(case, go)
         STATS["oracle_pairs_checked"] += 1
         if t is not None:
@@ -782,6 +886,8 @@ def oracle(case: dict, out: dict) -> Optional[str]:
                 return (f"estimate {e} paired with ground truth {g} although not better than the threshold {t} "
                         f"configured for the ground truth's label {go['label']} (mode {case['mode']}, "
                         f"independent score {independent_score(case, eo, go)[1]})")
+    if roiless and G:
+        return None
     if case["task_fp"]:
         if any(g is None for _, g in res):
             return f"FP validation kept an unpaired estimate: {res}"
@@ -849,6 +955,31 @@ def num_branches(case: dict) -> List[str]:
     return sorted(b) or ["num:canonical"]
 
 
+def uuid_scheme(case: dict) -> str:
+    us = [o["uuid"] for o in case["ests"] + case["gts"] if "uuid" in o]
+    if not us:
+        return "default-distinct"
+    if all(u is None for u in us):
+        return "all-none"
+    if any(u is None for u in us):
+        return "some-none"
+    ue = {o.get("uuid") for o in case["ests"] if o.get("uuid") is not None}
+    ug = {o.get("uuid") for o in case["gts"] if o.get("uuid") is not None}
+    return "shared-between-sides" if ue & ug else "set-distinct"
+
+
+def kind_branches(case: dict) -> List[str]:
+    """object kind x label family x uuids x task x uuid_matching_first: the fields that select a code path"""
+    kind = "3d" if case["dim"] == "3d" else ("2d-roi-less" if is_roiless(case) else "2d-roi")
+    fam = _family(case)
+    task = case.get("task") or (("fp_validation" if case["task_fp"] else "detection") + ("2d" if case["dim"] == "2d" else ""))
+    b = [f"family:{fam}", f"kind-family:{kind}:{fam}", f"uuids:{uuid_scheme(case)}", f"kind-family-uuids:{kind}:{fam}:{uuid_scheme(case)}",
+         f"evaluation-task:{task}", f"kind-family-task:{kind}:{fam}:{task}", "uuid_first:" + str(case.get("uuid_first", "default"))]
+    if case.get("grid"):
+        b.append("grid:" + case["kind"])
+    return b
+
+
 def branches(case: dict, out: dict) -> List[str]:
     b = [f"dim:{case['dim']}", f"mode:{case['dim']}:{case['mode']}", f"policy:{case['policy']}",
          f"task:{'fp_validation' if case['task_fp'] else 'detection'}", f"kind:{case['kind']}",
@@ -856,6 +987,7 @@ def branches(case: dict, out: dict) -> List[str]:
          "thresholds:" + ("none" if case["radii"] is None else "per-label"),
          "targets:" + ("none" if case["targets"] is None else "list")]
     b += num_branches(case)
+    b += kind_branches(case)
     if case.get("table_witness"):
         b.append("table:witness-case")
     if not STATS.get("_table_noted"):
@@ -869,6 +1001,11 @@ def branches(case: dict, out: dict) -> List[str]:
         return b + ["early:no-estimate", "trivial"]
     if nG == 0:
         return b + ["early:no-ground-truth:" + ("fp" if case["task_fp"] else "all-unpaired"), "trivial"]
+    b.append("path:" + expected_path(case, out))
+    if is_roiless(case):
+        unp = sum(1 for _, g in out["results"] if g is None)
+        b.append("roi-less:leftover:" + ("none" if nE == len(out["results"]) - unp else "kept" if unp else "dropped"))
+        return b
     st = scene_stats(case, out)
     res = out["results"]
     pos_e = {k: i for i, k in enumerate(out["in_e"])}
@@ -1000,7 +1137,77 @@ def _gen_radii(rng, mode: str, dim: str, n: int, special: float):
 NUM_FRACTION = 0.35  # share of the generated cases whose numeric parameters are handed over in other numeric types
 
 
-def gen_case(rng, size_max: int, contested: float = 0.5, manager: float = 0.1, numeric: float = NUM_FRACTION) -> dict:
+KIND_FRACTION = 0.45  # share of the generated cases whose path-selecting fields (family, uuids, task, uuid_first, ROI) vary
+
+
+def to_traffic_light(case: dict, collapse: bool) -> None:
+    """re-label a case with TrafficLightLabel members (injective on the member values, `unknown` and `false_positive`
+    keep their roles) and move 2-D objects to the traffic-light cameras; `collapse`: every colour becomes `traffic_light`
+    (what the label converter of a non-classification task produces)"""
+    def lab(name):
+        t = TL_OF[name]
+        return "traffic_light" if collapse and t not in ("unknown", "false_positive") else t
+
+    case["family"] = "traffic_light"
+    for o in case["ests"] + case["gts"]:
+        o["label"] = lab(o["label"])
+        o["frame"] = TL_FRAMES.get(o["frame"], o["frame"])
+    if case["targets"] is not None:
+        seen, ts, keep = set(), [], []
+        for k, t in enumerate(case["targets"]):
+            if lab(t) not in seen:
+                seen.add(lab(t))
+                ts.append(lab(t))
+                keep.append(k)
+        if case["radii"] is not None and len(ts) != len(case["targets"]):
+            case["radii"] = [case["radii"][k] for k in keep if k < len(case["radii"])]
+        case["targets"] = ts
+
+
+def set_uuids(rng, case: dict, scheme: str) -> None:
+    """uuids of the objects: 'shared' = both sides draw from one pool (unique per side), so an identity-based matcher would
+    pair other objects than the geometry does; 'none' = all None (detection results carry no uuid); 'some-none' = a mix"""
+    nE, nG = len(case["ests"]), len(case["gts"])
+    pool = [f"u{k}" for k in range(max(nE, nG) + 2)]
+    if scheme == "shared":
+        for side in ("ests", "gts"):
+            us = rng.sample(pool, len(case[side]))
+            for o, u in zip(case[side], us):
+                o["uuid"] = u
+    elif scheme == "none":
+        for o in case["ests"] + case["gts"]:
+            o["uuid"] = None
+    elif scheme == "some-none":
+        for side in ("ests", "gts"):
+            us = rng.sample(pool, len(case[side]))
+            for o, u in zip(case[side], us):
+                o["uuid"] = None if rng.random() < 0.5 else u
+
+
+def vary_kind_fields(rng, case: dict) -> None:
+    """vary the fields from which `get_object_results` selects its matcher and that a geometric match must not depend on"""
+    dim, kind = case["dim"], case["kind"]
+    if rng.random() < (0.5 if dim == "2d" else 0.15) and not (kind == "manager" and dim == "3d"):
+        to_traffic_light(case, collapse=(kind == "manager") or rng.random() < 0.3)
+        if kind == "manager" and case["targets"] == []:
+            case["targets"] = ["traffic_light"]
+            if case["radii"] is not None:
+                case["radii"] = case["radii"][:1] or None
+    r = rng.random()
+    set_uuids(rng, case, "default" if r < 0.3 else "shared" if r < 0.65 else "none" if r < 0.85 else "some-none")
+    if rng.random() < 0.5:
+        case["uuid_first"] = rng.random() < 0.6
+    if kind == "direct" and rng.random() < 0.6:
+        case["task"] = rng.choice(TASKS[(dim, bool(case["task_fp"]))])
+    if dim == "2d" and kind == "direct" and rng.random() < 0.08:
+        # ROI-less variant (C11's matchers; only the matcher-independent part of C01 is asserted): unique non-null uuids
+        set_uuids(rng, case, "shared")
+        for o in case["ests"] + case["gts"]:
+            o["roi"] = None
+
+
+def gen_case(rng, size_max: int, contested: float = 0.5, manager: float = 0.1, numeric: float = NUM_FRACTION,
+             variants: float = KIND_FRACTION) -> dict:
     dim = "3d" if rng.random() < 0.7 else "2d"
     kind = "manager" if rng.random() < manager else "direct"
     mode = "center" if kind == "manager" else rng.choice(MODES3D if dim == "3d" else MODES2D)
@@ -1026,13 +1233,15 @@ def gen_case(rng, size_max: int, contested: float = 0.5, manager: float = 0.1, n
     radii = None if targets is None and rng.random() < 0.5 else _gen_radii(rng, mode, dim, len(targets) if targets else 4, 0.0 if kind == "manager" else 0.02)
     case = {"kind": kind, "dim": dim, "mode": mode, "policy": rng.choice(POLICIES), "task_fp": task_fp,
             "targets": targets, "radii": radii, "ests": ests, "gts": gts}
+    if rng.random() < variants:
+        vary_kind_fields(rng, case)
     if dim == "3d":
         case["ego"] = [core.dyadic(rng, -8, 8, 2), core.dyadic(rng, -8, 8, 2), rng.choice([0.0, 0.5, -1.25, math.pi / 2])]
         if kind == "manager":
             case["mframe"] = "map" if mixed else "base_link"
     if rng.random() < numeric:
-        if kind == "manager" and radii is not None and rng.random() < 0.4:
-            case["radii"] = [radii[0]] * len(radii)  # one radius for all labels: may be configured as a scalar
+        if kind == "manager" and case["radii"] is not None and rng.random() < 0.4:
+            case["radii"] = [case["radii"][0]] * len(case["radii"])  # one radius for all labels: may be configured as a scalar
         case["num"] = gen_num(rng, case, rng.choice([0.2, 0.6, 1.0]))
     return case
 
@@ -1120,8 +1329,130 @@ N_QUICK = 1100
 N_THOROUGH = 20000
 
 
+# ----------------------------------------------------------------------------- the deterministic grid of path-selecting fields
+
+LABEL_SETS = {  # (family, main label A, other label B, unknown)
+    "autoware": ("autoware", "car", "pedestrian", "unknown"),
+    "tl-colours": ("traffic_light", "green", "red", "unknown"),
+    "tl-detection": ("traffic_light", "traffic_light", "traffic_light", "unknown"),
+}
+GRID_UUIDS = ["distinct", "shared", "none"]
+
+
+def _grid_scenes(dim: str, A: str, B: str, cams) -> list:
+    """fixed scenes in which geometry, labels and uuids each suggest ANOTHER pairing, one estimate stays unpaired and one
+    same-label pair lies beyond the tight radius. Objects are (label, frame, place, uuid-if-shared)."""
+    c0, c1 = cams
+    return [
+        # e0 (A) sits on g1 (B), e1 (B) sits on g0 (A), e2 (A) next to g0, e3 (A) far from everything;
+        # shared uuids: g0 has the uuid of the FAR estimate e3, g1 that of e1
+        ([(A, c0, "P1+", "u0"), (B, c0, "P0+", "u1"), (A, c0, "P0~", "u2"), (A, c0, "FAR", "u3")],
+         [(A, c0, "P0", "u3"), (B, c0, "P1", "u1")]),
+        # two detections, one annotation that shares label AND uuid with the far one
+        ([(A, c0, "FAR", "a"), (A, c0, "P0+", "b")], [(A, c0, "P0", "a")]),
+        # two cameras: same label and uuid across cameras must never pair; one honest pair per camera, one leftover
+        ([(A, c1, "P0", "a"), (A, c0, "P1+", "b"), (B, c1, "P1~", "c"), (B, c0, "FAR", "d")],
+         [(A, c0, "P0", "a"), (A, c0, "P1", "c"), (B, c1, "P1", "b")]),
+    ]
+
+
+PLACES_2D = {"P0": [100, 100, 20, 20], "P0+": [104, 100, 20, 20], "P0~": [100, 103, 20, 20], "P1": [300, 100, 20, 20],
+             "P1+": [304, 100, 20, 20], "P1~": [300, 103, 20, 20], "FAR": [600, 400, 20, 20]}
+PLACES_3D = {"P0": [10.0, 0.0], "P0+": [10.5, 0.0], "P0~": [10.0, 0.25], "P1": [30.0, 0.0], "P1+": [30.5, 0.0],
+             "P1~": [30.0, 0.25], "FAR": [60.0, 40.0]}
+
+
+def _grid_objects(dim: str, spec: list, uuids: str, roiless: bool, conf: bool) -> list:
+    out = []
+    for (lab, frame, place, u) in spec:
+        if dim == "3d":
+            x, y = PLACES_3D[place]
+            o = {"label": lab, "frame": frame, "pos": [x, y, 0.0], "yaw": 0.0, "size": [2.0, 4.0, 1.5]}
+        else:
+            o = {"label": lab, "frame": frame, "roi": None if roiless else list(PLACES_2D[place])}
+        if conf:
+            o["conf"] = 0.5
+        if uuids == "shared":
+            o["uuid"] = u
+        elif uuids == "none":
+            o["uuid"] = None
+        out.append(o)
+    return out
+
+
+def grid_cases(tier: str = "quick") -> list:
+    """EVERY combination of object kind {3-D, 2-D with ROI, 2-D without ROI} x label set {Autoware, traffic-light colours,
+    traffic-light detection label} x uuids {distinct, shared between the sides, None} x evaluation task admitting the kind x
+    uuid_matching_first x matching mode x radii {none, tight} on fixed scenes, plus the same through the manager."""
+    cases = []
+    n = 0
+    for kind in ("3d", "2d-roi", "2d-roi-less"):
+        dim = "3d" if kind == "3d" else "2d"
+        modes = MODES3D if dim == "3d" else MODES2D
+        for ls_name, (fam, A, B, U) in LABEL_SETS.items():
+            cams = ("base_link", "map") if dim == "3d" else (
+                ("cam_front", "cam_back") if fam == "autoware" else ("cam_traffic_light_near", "cam_traffic_light"))
+            scenes = _grid_scenes(dim, A, B, cams)
+            targets = [A, U] if A == B else [A, B, U]
+            for uuids in GRID_UUIDS:
+                if kind == "2d-roi-less" and uuids == "none":
+                    continue  # documented RuntimeError of the identity-based matchers (C11)
+                for task_fp in (False, True):
+                    for task in TASKS[(dim, task_fp)]:
+                        for uf in (None, False, True):
+                            for mode in (modes if kind != "2d-roi-less" else modes[:1]):
+                                for tight in (False, True):
+                                    if kind == "2d-roi-less" and tight:
+                                        continue
+                                    n += 1
+                                    # quick: every (kind, label set, uuids, task, uuid_first) keeps >= 1 scene per mode/radius
+                                    picks = range(len(scenes)) if tier != "quick" or kind != "3d" else [n % len(scenes)]
+                                    for si in picks:
+                                        es, gs = scenes[si]
+                                        iou = mode in ("iou2d", "iou3d")
+                                        radius = 0.25 if iou else (2.0 if dim == "3d" else 50.0)
+                                        c = {"kind": "direct", "dim": dim, "mode": mode, "policy": POLICIES[n % 3], "task_fp": task_fp,
+                                             "targets": list(targets), "radii": [radius] * len(targets) if tight else None,
+                                             "ests": _grid_objects(dim, es, uuids, kind == "2d-roi-less", True),
+                                             "gts": _grid_objects(dim, gs, uuids, kind == "2d-roi-less", False),
+                                             "family": fam, "task": task, "grid": ls_name}
+                                        if dim == "3d":
+                                            c["ego"] = [0.0, 0.0, 0.0]
+                                        if uf is not None:
+                                            c["uuid_first"] = uf
+                                        cases.append(c)
+    # the same through PerceptionEvaluationManager.add_frame_result (its configuration fixes mode = center distance)
+    for dim in ("3d", "2d"):
+        for ls_name in ("autoware", "tl-detection"):
+            fam, A, B, U = LABEL_SETS[ls_name]
+            if dim == "3d" and fam != "autoware":
+                continue
+            cams = ("base_link", "base_link") if dim == "3d" else (
+                ("cam_front", "cam_back") if fam == "autoware" else ("cam_traffic_light_near", "cam_traffic_light_far"))
+            A2, B2 = (A, B) if A != B else (A, U)
+            scenes = _grid_scenes(dim, A2, B2, cams)
+            targets = [A, U] if A == B else [A, B, U]
+            for uuids in GRID_UUIDS:
+                for task_fp in (False, True):
+                    for uf in (None, True):
+                        for tight in (False, True):
+                            for si, (es, gs) in enumerate(scenes):
+                                n += 1
+                                c = {"kind": "manager", "dim": dim, "mode": "center", "policy": POLICIES[n % 3], "task_fp": task_fp,
+                                     "targets": list(targets), "radii": [2.0 if dim == "3d" else 50.0] * len(targets) if tight else None,
+                                     "ests": _grid_objects(dim, es, uuids, False, True), "gts": _grid_objects(dim, gs, uuids, False, False),
+                                     "family": fam, "grid": ls_name}
+                                if dim == "3d":
+                                    c["ego"] = [0.0, 0.0, 0.0]
+                                    c["mframe"] = "base_link"
+                                if uf is not None:
+                                    c["uuid_first"] = uf
+                                cases.append(c)
+    return cases
+
+
 def generate(rng, tier: str, contested: float = 0.45, manager: float = 0.1) -> list:
-    cases = table_witnesses()
+    cases = table_witnesses() + grid_cases(tier)
     if tier == "quick":
         for _ in range(N_QUICK):
             cases.append(gen_case(rng, 8, contested, manager))
@@ -1158,6 +1489,14 @@ def shrink(case: dict):
         yield c
     if case["kind"] == "manager":
         yield dict(case, kind="direct")
+    for key in ("uuid_first", "task", "grid"):
+        if key in case:
+            yield {k: v for k, v in case.items() if k != key}
+    if any("uuid" in o for o in case["ests"] + case["gts"]):  # back to the harness' default uuids
+        c = dict(case)
+        for which in ("ests", "gts"):
+            c[which] = [{k: v for k, v in o.items() if k != "uuid"} for o in case[which]]
+        yield c
     if case["policy"] != "DEFAULT":
         yield dict(case, policy="DEFAULT")
 
